@@ -237,6 +237,70 @@ func identOf(e ast.Expr) *ast.Ident {
 	return id
 }
 
+// stmtYieldPkgs: packages whose every statement is preceded by an optional
+// preemption point (zzsimrt.StmtYield). The request handlers and the cluster layer
+// share state between request goroutines through closures and struct fields with no
+// synchronisation operation in between; without these points two requests could
+// only interleave at locks, channels, storage and rpc operations. The index / shard
+// packages are left out (hot loops; their sharing goes through locks and the cache
+// manager, which are scheduling points already), and so is cluster/mrpc (its codec
+// runs under net/rpc's own, real, request mutex).
+func stmtYieldPkg(path string) bool {
+	return strings.HasSuffix(path, "/cluster") || strings.Contains(path, "/httpapi")
+}
+
+func (r *rewriter) stmtYields() {
+	skip := map[*ast.FuncLit]bool{}
+	ast.Inspect(r.file, func(n ast.Node) bool {
+		if call, ok := n.(*ast.CallExpr); ok {
+			if sel, ok := call.Fun.(*ast.SelectorExpr); ok {
+				if t := r.typeOf(sel.X); t != nil {
+					if ok, _ := isNamed(t, "sync", "Once"); ok { // runs under sync.Once's real mutex
+						for _, a := range call.Args {
+							if fl, ok := a.(*ast.FuncLit); ok {
+								skip[fl] = true
+							}
+						}
+					}
+				}
+			}
+		}
+		return true
+	})
+	inject := func(list []ast.Stmt) []ast.Stmt {
+		out := make([]ast.Stmt, 0, 2*len(list))
+		for _, s := range list {
+			r.stats["stmt-yield"]++
+			out = append(out, &ast.ExprStmt{X: r.call("StmtYield", r.site(s))}, s)
+		}
+		return out
+	}
+	clausesOnly := map[*ast.BlockStmt]bool{}
+	ast.Inspect(r.file, func(n ast.Node) bool {
+		switch x := n.(type) {
+		case *ast.FuncLit:
+			if skip[x] {
+				return false
+			}
+		case *ast.SwitchStmt:
+			clausesOnly[x.Body] = true
+		case *ast.TypeSwitchStmt:
+			clausesOnly[x.Body] = true
+		case *ast.SelectStmt:
+			clausesOnly[x.Body] = true
+		case *ast.BlockStmt:
+			if !clausesOnly[x] {
+				x.List = inject(x.List)
+			}
+		case *ast.CaseClause:
+			x.Body = inject(x.Body)
+		case *ast.CommClause:
+			x.Body = inject(x.Body)
+		}
+		return true
+	})
+}
+
 func (r *rewriter) apply() {
 	inSelectComm := map[ast.Node]bool{}
 	astutil.Apply(r.file, func(c *astutil.Cursor) bool {
@@ -567,6 +631,9 @@ func main() {
 		}
 		for i, f := range p.Syntax {
 			r := &rewriter{pkg: p, fset: p.Fset, file: f, stats: stats}
+			if stmtYieldPkg(p.PkgPath) {
+				r.stmtYields()
+			}
 			r.apply()
 			if interpose(p, f, stats) {
 				r.used = true
